@@ -87,6 +87,12 @@ struct Two {
   }
 };
 
+// In VRT's weak-memory mode a try_ operation may legitimately read a stale slot version unless the
+// operations that filled / emptied the queue happen-before it; the harness can only vouch for that on the
+// main thread after it joined everybody, so the justification oracle is restricted to that case there.
+static bool g_view = false;
+static bool justify_here() { return !g_view || vrt_tid() == 0; }
+
 enum Kind { PUSH, TRY_PUSH, PUSH_N, TRY_PUSH_N, POP, TRY_POP, POP_N, TRY_POP_N, CPUSH_N, CPOP_N, TIMED_POP_N };
 
 struct OpRec {           // one element handed in / out, with the stamps of the call that did it
@@ -197,7 +203,7 @@ struct Run {
   bool leave(const Win& w) {
     --active;
     ++stamp;
-    return w.others == 0 && started == w.started0;
+    return justify_here() && w.others == 0 && started == w.started0;
   }
   void rec_push(const Ctx& c, size_t from, size_t to, uint64_t call) {
     for (size_t i = from; i < to; ++i) pushed.push_back({c.vals[i], call, stamp, vrt_tid()});
@@ -507,7 +513,7 @@ void run_mix(uint64_t seed, int words) {
   if (sz != 0) vrt_event("ORACLE size() = %zu at quiescence after balanced programs", sz);
   if (R.try_pop(false, true)) vrt_event("ORACLE queue not empty after balanced programs");
   R.final_oracle(true);
-  vrt_event("stats steps %lu switches %lu", vrt_steps(), vrt_switches());
+  vrt_event("stats steps %lu switches %lu stale %lu", vrt_steps(), vrt_switches(), (unsigned long)vrt_stale_reads());
   vrt_end();
   vrt_dump(stdout);
 }
@@ -566,7 +572,7 @@ void run_comp(uint64_t seed, int words) {
   vrt_event("ret size %zu", sz);
   if (sz != 0) vrt_event("ORACLE size() = %zu after draining", sz);
   R.final_oracle(true);
-  vrt_event("stats steps %lu switches %lu", vrt_steps(), vrt_switches());
+  vrt_event("stats steps %lu switches %lu stale %lu", vrt_steps(), vrt_switches(), (unsigned long)vrt_stale_reads());
   vrt_end();
   vrt_dump(stdout);
 }
@@ -628,7 +634,7 @@ void run_timed(uint64_t seed, int words) {
   for (auto& t : ts) t.join();
   if (R.try_pop(false, true)) vrt_event("ORACLE queue not empty after balanced programs");
   R.final_oracle(true);
-  vrt_event("stats steps %lu switches %lu", vrt_steps(), vrt_switches());
+  vrt_event("stats steps %lu switches %lu stale %lu", vrt_steps(), vrt_switches(), (unsigned long)vrt_stale_reads());
   vrt_end();
   vrt_dump(stdout);
 }
@@ -637,6 +643,7 @@ int main(int argc, char** argv) {
   std::string mode = argc > 1 ? argv[1] : "mix";
   uint64_t seed0 = argc > 2 ? strtoull(argv[2], 0, 10) : 1;
   int nruns = argc > 3 ? atoi(argv[3]) : 1;
+  g_view = getenv("VRT_MEM") && !strcmp(getenv("VRT_MEM"), "view");
   vrt_trace_clock(1);     // `ev clock <ns>` per clock reading, ` to=<ns>` on timed futex waits
   vrt_payload_sched(1);   // plain accesses to slot payloads are scheduling points
   for (int i = 0; i < nruns; ++i) {
